@@ -56,7 +56,7 @@ fn key(rng: &mut Rng) -> String {
     for _ in 0..hexlen {
         s.push(*rng.pick(&['0', '1', '2', '3', '4', '5', '6', '7', '8', '9', 'a', 'b', 'c', 'd', 'e', 'f']));
     }
-    s.push_str(*rng.pick(&[".delta", ".pack", ".pack", ".delta", ".idx", ".tmp", ".PACK", ".Delta", ".pac_", ".p%ck", ".pack2"]));
+    s.push_str(*rng.pick(&[".delta", ".pack", ".pack", ".delta", ".idx", ".tmp", ".PACK", ".Delta", ".pac_", ".p%ck", ".pack2", ".flate", ".brotli", ".pack.flate"]));
     s
 }
 
